@@ -536,6 +536,11 @@ func (h *histState) lintCall(i int, p *Parsed, reg lint.Registry, path string, p
 		h.aborted = true
 		h.violate(Violation{Property: "C01", Class: "hang", Op: i, Site: kindNames[p.Kind] + "/" + path,
 			Detail: fmt.Sprintf("the %s lint call of op %d (path %q) did not return within %v", kindNames[p.Kind], i, path, opHangLimit)})
+		if h.p.Prop == "C04" {
+			// the life cycle never delivered the verdict it owes for this object
+			h.violate(Violation{Property: "C04", Class: "no_verdict_hang", Op: i, Site: kindNames[p.Kind] + "/" + path,
+				Detail: fmt.Sprintf("the %s lint call of op %d (path %q) did not return within %v: no lint of the call gets the result the life cycle owes it", kindNames[p.Kind], i, path, opHangLimit)})
+		}
 		// does the same call return when made alone in a fresh process? then it is what happened before
 		// in this process that keeps it from returning
 		if h.hangDER != nil && workerMode != "noref" && h.hangCfg != "" {
@@ -956,6 +961,24 @@ func (h *histState) doFilter(i int, op *Op) {
 		}()
 		child, ferr = parent.Filter(fo)
 	}()
+	if _, pooled := h.optPool[mustJSON(op.Opts)]; !pooled && i%3 != 2 && len(op.Opts.Profiles) == 0 {
+		// the caller reuses its buffers once the call has returned: the lists it passed now hold other names
+		// (the options were passed by value, the lists inside them were not copied by the language)
+		scribble := func(l []string) {
+			for k := range l {
+				l[k] = "zsim-caller-reused-this-slot"
+			}
+		}
+		scribble(fo.IncludeNames)
+		scribble(fo.ExcludeNames)
+		for k := range fo.IncludeSources {
+			fo.IncludeSources[k] = lint.LintSource("zsim-reused")
+		}
+		for k := range fo.ExcludeSources {
+			fo.ExcludeSources[k] = lint.LintSource("zsim-reused")
+		}
+		h.ctr.inc("fault/caller_reuses_option_lists_after_filter")
+	}
 	if pan != "" {
 		h.violate(Violation{Property: "C08", Class: "filter_panic", Op: i, Detail: "Filter panicked: " + clip(pan, 200)})
 		h.aborted = true
